@@ -57,6 +57,7 @@ type Obligation struct {
 	Status   string // discharged | failed | undecided | known-finding
 	Findings []*Finding
 	FindingPresent []bool
+	Retried  bool // no solver answered within the limit; decided by the second, longer attempt
 	ctx      *FnCtx
 	MustFail bool
 	Pos      string
